@@ -14,7 +14,8 @@ class C05(Prop):
           "of miros/activeobject.py and miros/hsm.py and at every virtual primitive operation): a "
           "running ActiveObject, 1-3 poster threads plus the body thread posting fifo/lifo events, "
           "optionally 1 or 497..500 events queued before start_at so that the bounded token queue "
-          "is reached; the generated schedule prefix is followed by fair round-robin. Oracle: the "
+          "is reached, optionally long bursts of 15-40 posts per poster that overlap the object's "
+          "steps, optionally with live spy/trace output switched on; the generated schedule prefix is followed by fair round-robin. Oracle: the "
           "exact deadlock detector (every thread blocked, no timer pending) never fires, the step "
           "bound (400k scheduling steps, >100x the longest passing run) is never reached under the "
           "fair suffix, and at quiescence every poster has finished and the consumer is blocked "
